@@ -90,7 +90,7 @@ func SetProperty(reference graph.Criteria, value any) *cypherModel.UpdatingClaus
 		Items: []*cypherModel.SetItem{{
 			Left:     reference,
 			Operator: cypherModel.OperatorAssignment,
-			Right:    Parameter(value),
+			Right:    valueOperand(value),
 		}},
 	})
 }
@@ -102,7 +102,7 @@ func SetProperties(reference graph.Criteria, properties map[string]any) *cypherM
 		set.Items = append(set.Items, &cypherModel.SetItem{
 			Left:     Property(reference, key),
 			Operator: cypherModel.OperatorAssignment,
-			Right:    Parameter(value),
+			Right:    valueOperand(value),
 		})
 	}
 
@@ -203,6 +203,17 @@ func Parameter(value any) *cypherModel.Parameter {
 	}
 }
 
+// valueOperand turns the value handed to a comparison or SET constructor into its operand: a literal AST node is used
+// as it is (as query/v2 does), any other Go value is bound as a parameter. Wrapping a *cypherModel.Literal in a parameter
+// would put the AST node itself into the parameter map handed to the database driver.
+func valueOperand(value any) cypherModel.Expression {
+	if literal, isLiteral := value.(*cypherModel.Literal); isLiteral {
+		return literal
+	}
+
+	return Parameter(value)
+}
+
 func Literal(value any) *cypherModel.Literal {
 	return &cypherModel.Literal{
 		Value: value,
@@ -284,11 +295,11 @@ func CaseInsensitiveStringEndsWith(reference graph.Criteria, value string) *cyph
 }
 
 func Equals(reference graph.Criteria, value any) *cypherModel.Comparison {
-	return cypherModel.NewComparison(reference, cypherModel.OperatorEquals, Parameter(value))
+	return cypherModel.NewComparison(reference, cypherModel.OperatorEquals, valueOperand(value))
 }
 
 func GreaterThan(reference graph.Criteria, value any) *cypherModel.Comparison {
-	return cypherModel.NewComparison(reference, cypherModel.OperatorGreaterThan, Parameter(value))
+	return cypherModel.NewComparison(reference, cypherModel.OperatorGreaterThan, valueOperand(value))
 }
 
 func After(reference graph.Criteria, value any) *cypherModel.Comparison {
@@ -296,11 +307,11 @@ func After(reference graph.Criteria, value any) *cypherModel.Comparison {
 }
 
 func GreaterThanOrEquals(reference graph.Criteria, value any) *cypherModel.Comparison {
-	return cypherModel.NewComparison(reference, cypherModel.OperatorGreaterThanOrEqualTo, Parameter(value))
+	return cypherModel.NewComparison(reference, cypherModel.OperatorGreaterThanOrEqualTo, valueOperand(value))
 }
 
 func LessThan(reference graph.Criteria, value any) *cypherModel.Comparison {
-	return cypherModel.NewComparison(reference, cypherModel.OperatorLessThan, Parameter(value))
+	return cypherModel.NewComparison(reference, cypherModel.OperatorLessThan, valueOperand(value))
 }
 
 func LessThanGraphQuery(reference1, reference2 graph.Criteria) *cypherModel.Comparison {
@@ -316,7 +327,7 @@ func BeforeGraphQuery(reference1, reference2 graph.Criteria) *cypherModel.Compar
 }
 
 func LessThanOrEquals(reference graph.Criteria, value any) *cypherModel.Comparison {
-	return cypherModel.NewComparison(reference, cypherModel.OperatorLessThanOrEqualTo, Parameter(value))
+	return cypherModel.NewComparison(reference, cypherModel.OperatorLessThanOrEqualTo, valueOperand(value))
 }
 
 func Exists(reference graph.Criteria) *cypherModel.Comparison {
@@ -344,11 +355,11 @@ func HasRelationships(reference *cypherModel.Variable) *cypherModel.PatternPredi
 }
 
 func In(reference graph.Criteria, value any) *cypherModel.Comparison {
-	return cypherModel.NewComparison(reference, cypherModel.OperatorIn, Parameter(value))
+	return cypherModel.NewComparison(reference, cypherModel.OperatorIn, valueOperand(value))
 }
 
 func InInverted(reference graph.Criteria, value any) *cypherModel.Comparison {
-	return cypherModel.NewComparison(Parameter(value), cypherModel.OperatorIn, reference)
+	return cypherModel.NewComparison(valueOperand(value), cypherModel.OperatorIn, reference)
 }
 
 func InIDs[T *cypherModel.FunctionInvocation | *cypherModel.Variable](reference T, ids ...graph.ID) *cypherModel.Comparison {
